@@ -504,6 +504,9 @@ class OpSum(list):
         return self + (-other)
 
     def __mul__(self, other):
+        if isinstance(other, np.ndarray) and other.ndim == 0:
+            # 0-d array: a scalar (otherwise it falls through to list repetition)
+            other = other.item()
         if isinstance(other, list):
             res = []
             for op1 in self:
@@ -516,6 +519,8 @@ class OpSum(list):
             return OpSum(super().__mul__(other))
 
     def __rmul__(self, other):
+        if isinstance(other, np.ndarray) and other.ndim == 0:
+            other = other.item()
         if isinstance(other, (int, float, complex, np.generic)):
             return self * other
         return OpSum(super().__rmul__(other))
